@@ -143,10 +143,12 @@ def main():
                 for s in parts[-1]:
                     evs += [s] + ([None] if rng.random() < 0.5 else [])
                 evs += [None, b""]
-                outs, buf = add_case(em, p, False, 0, [], evs, ops + [1, 1, n], "plain socket with timeouts / OSError / close between segments")
+                drain = ops + [1] * (n + len(evs) + 2)      # keep reading: every timeout costs one empty read, nothing else
+                outs, buf = add_case(em, p, False, 0, [], evs, drain, "plain socket with timeouts / OSError / close between segments, read until drained")
                 em.direct_evaluations += 1
-                if outs is not None and (b"".join(outs) + buf) != data[: len(b"".join(outs) + buf)]:
-                    em.violation("C11: data lost or reordered around a timeout", {"events": [e.hex() if e is not None else None for e in evs], "ops": ops}, {})
+                if outs is not None and (b"".join(outs) + buf) != data:
+                    em.violation("C11: data lost, duplicated or reordered around a timeout (reading on after the timeouts does not deliver the whole stream)",
+                                 {"recv_events": [e.hex() if e is not None else None for e in evs], "ops": drain}, {"delivered": (b"".join(outs) + buf).hex(), "sent": data.hex()})
         em.samples = [{"data_len": n, "segmentations": len(parts), "op_sets": len(ops_sets)}]
     else:  # C12
         bodies = []
@@ -154,6 +156,7 @@ def main():
         for i, t in enumerate(texts):
             bodies.append((t, 1, True, i % 2 == 1, False))
         bodies.append(([b"hello", b"abc"], 1, False, False, False))
+        bodies.append(([bytes(rng.getrandbits(8) for _ in range(150)), b"xy", bytes(rng.getrandbits(8) for _ in range(70))], 1, True, False, False))
         bodies.append(([b"hello world", b"zz"], 1, True, False, True))
         for enc in (3, 5, 9):
             bodies.append(([b"hello world hello world", b"zz"], enc, True, False, False))
@@ -185,6 +188,24 @@ def main():
                 if got != want:
                     em.violation("C12: delivered bytes differ from the decoded chunk bodies", {"segments": [x.hex() for x in segs], "encoding": enc},
                                  {"delivered": got.hex(), "expected": want.hex()})
+            # small receive buffers: every segment at most bufsize bytes, chunks may be (much) larger than the buffer
+            for bs in (1, 2, 5, 16, 64):
+                for rep in range(3 if thorough else 1):
+                    segs = []
+                    i = 0
+                    while i < n:
+                        j = min(n, i + (bs if rep == 0 else rng.randrange(1, bs + 1)))
+                        segs.append(s[i:j])
+                        i = j
+                    if len(segs) > 700:
+                        continue
+                    ops = [len(want), 1] if rep == 0 else [1] * (len(want) + 2)
+                    outs, buf = add_case(em, p, True, enc, table, segs, ops, "chunked body in segments of at most %d bytes, bufsize %d" % (bs, bs), bufsize=bs)
+                    em.direct_evaluations += 1
+                    em.count("bufsize.%d" % bs)
+                    if outs is None or b"".join(outs) + buf != want:
+                        em.violation("C12: delivered bytes differ from the decoded chunk bodies (bufsize %d)" % bs,
+                                     {"segments": [x.hex() for x in segs], "encoding": enc, "bufsize": bs, "ops": ops}, {"expected": want.hex()})
             # dechunk() itself on every prefix
             w = p.SocketWrapper(FakeSock([]), encoding=enc)
             for cut in range(0, n + 1, 1 if n < 80 else 3):
